@@ -216,6 +216,15 @@ def replay(path):
         return 1 if rc == 1 else (0 if rc == 0 else 2)
     if kind == 'kani-harness':
         return P.replay_kani(j)
+    if kind in ('bx-builder', 'bx-resolver'):
+        exe, err = units.build_bx()
+        if exe is None:
+            print(err)
+            return 2
+        cmd = [exe, 'builder-history', '--replay', path] if kind == 'bx-builder' else [exe, 'resolver']
+        rc, out, err, wall, to = units._sh(cmd, 600)
+        print('\n'.join(l for l in out.split('\n') if l.startswith('REPLAY') or l.startswith('  ') or l.startswith('replaying')))
+        return 1 if rc == 1 else (0 if rc == 0 else 2)
     print('no concrete input was found for this failed obligation (no-failing-input-found).')
     print('failed obligation: %s' % json.dumps(j.get('obligation'), indent=1))
     print('verifier output:\n%s' % j.get('verifier_output', '')[-6000:])
